@@ -315,7 +315,7 @@ def check_matchpy_roundtrip():
             continue
         if canon(back, AC_MATCHPY, False) != canon(e, AC_MATCHPY, False):
             regroup = canon(back, AC_MATCHPY, True) == canon(e, AC_MATCHPY, True)
-            _viol(res, f"matchpy roundtrip {e!r}", "matchpy-roundtrip-regrouped" if regroup else "matchpy-roundtrip",
+            _viol(res, f"matchpy roundtrip {H.stable_text(e)}", "matchpy-roundtrip-regrouped" if regroup else "matchpy-roundtrip",
                   f"From(To({e!r})) = {back!r}, not the input up to operand order / index tuples"
                   + (" (nested associative operands were regrouped into one flat node)" if regroup else ""))
     res.paths = 1
